@@ -26,6 +26,12 @@ pub fn run(k: &str, c: &Value) -> Value {
             json!({
                 "signed": hx(signed_angle(&v1, &w)),
                 "cw": hx(directed_angle(&v1, &w, AngleDir::Cw)), "ccw": hx(directed_angle(&v1, &w, AngleDir::Ccw)),
+                // the quarter-turn helpers and the direction <-> sign maps of the same files
+                "rot90": [hv2(&(engeom::geom2::rot90(AngleDir::Ccw) * v1)), hv2(&(engeom::geom2::rot90(AngleDir::Cw) * v1))],
+                "rot270": [hv2(&(engeom::geom2::rot270(AngleDir::Ccw) * v1)), hv2(&(engeom::geom2::rot270(AngleDir::Cw) * v1))],
+                "signs": [hx(AngleDir::Ccw.to_sign()), hx(AngleDir::Cw.to_sign())],
+                "from_sign": [matches!(AngleDir::from_sign(v1.x), AngleDir::Ccw), matches!(AngleDir::from_sign(-1.0), AngleDir::Cw), matches!(AngleDir::from_sign(1.0), AngleDir::Ccw),
+                              matches!(AngleDir::Ccw.opposite(), AngleDir::Cw), matches!(AngleDir::Cw.opposite(), AngleDir::Ccw)],
             })
         }
         "c18.ainterval" => {
